@@ -68,6 +68,10 @@ struct Ledger {
     detect_updates: u64,
     /// time stamps are unique but not monotonic (every third one lies about 40 s ahead of its neighbours)
     jitter_time: bool,
+    /// analog inputs are reported in 16-bit variations (g30v2 / g32v4): what arrives is the value brought into the range of
+    /// 16 bits, with OVER_RANGE when it was outside
+    narrow_analog: bool,
+    narrowed_out_of_range: u64,
 }
 
 type Shared = Arc<Mutex<Ledger>>;
@@ -161,6 +165,20 @@ fn write_point(
                 &FrozenCounter::new(c as u32, Flags::new(raw_flags), tm),
                 opt,
             )
+        }
+        5 if led.narrow_analog => {
+            // whole numbers inside the 16-bit range, and one in four outside it on either side
+            let v: f64 = match r.below(8) {
+                0 => -(40_000.0 + (c % 1000) as f64),
+                1 => 40_000.0 + (c % 1000) as f64,
+                _ => (c % 60_000) as f64 - 30_000.0,
+            };
+            h.num = v.clamp(-32_768.0, 32_767.0);
+            if h.num != v {
+                h.flags = raw_flags | 0x20;
+                led.narrowed_out_of_range += 1;
+            }
+            db.update2(i, &AnalogInput::new(v, Flags::new(raw_flags), tm), opt)
         }
         5 => {
             h.num = c as f64 + 0.25;
@@ -527,6 +545,11 @@ async fn scenario(a: &ShardArgs, idx: u64) {
     let t_begin = Instant::now();
     let led: Shared = Arc::new(Mutex::new(Ledger::default()));
     led.lock().unwrap().jitter_time = relative_time;
+    let narrow_analog = r.chance(1, 3);
+    led.lock().unwrap().narrow_analog = narrow_analog;
+    if narrow_analog {
+        out::count("scenarios_with_16_bit_analog_variations", 1);
+    }
     if relative_time {
         out::count("scenarios_with_relative_time_events", 1);
     }
@@ -630,11 +653,19 @@ async fn scenario(a: &ShardArgs, idx: u64) {
                 db.add(
                     i,
                     cls(2),
-                    AnalogInputConfig::new(
-                        StaticAnalogInputVariation::Group30Var6,
-                        EventAnalogInputVariation::Group32Var8,
-                        0.0,
-                    ),
+                    if narrow_analog {
+                        AnalogInputConfig::new(
+                            StaticAnalogInputVariation::Group30Var2,
+                            EventAnalogInputVariation::Group32Var4,
+                            0.0,
+                        )
+                    } else {
+                        AnalogInputConfig::new(
+                            StaticAnalogInputVariation::Group30Var6,
+                            EventAnalogInputVariation::Group32Var8,
+                            0.0,
+                        )
+                    },
                 );
                 db.add(
                     i,
@@ -1227,6 +1258,7 @@ async fn scenario(a: &ShardArgs, idx: u64) {
             out::count("events_overflow_discarded", g.discarded.len() as u64);
             out::count("commands_executed", g.commands);
             out::count("updates_with_event_detection", g.detect_updates);
+            out::count("analog_values_outside_16_bits_written", g.narrowed_out_of_range);
             out::count("convergence_ms_total", conv_ms as u64);
         }
         let c = ctl.lock().unwrap();
